@@ -172,6 +172,49 @@ static void dump_in (hawk_tio_t* tio)
 
 static int tio_flags (const char* f) { int x = 0; if (strchr(f, 'i')) x |= HAWK_TIO_IGNOREECERR; if (strchr(f, 'n')) x |= HAWK_TIO_NOAUTOFLUSH; return x; }
 
+/* 'U' / 'M' in the flags select the utf16 / mb8 character manager for the tio (hawk_tio_setcmgr) */
+static void tio_pick_cmgr (hawk_tio_t* tio, const char* f)
+{
+	hawk_cmgr_t* cm = HAWK_NULL;
+	if (strchr(f, 'U')) cm = hawk_get_cmgr_by_id(HAWK_CMGR_UTF16);
+	else if (strchr(f, 'M')) cm = hawk_get_cmgr_by_id(HAWK_CMGR_MB8);
+	if (cm) { hawk_tio_setcmgr(tio, cm); if (hawk_tio_getcmgr(tio) != cm) printf("SETCMGR-LOST "); }
+}
+static int cm_id (const char* name)
+{
+	if (!strcmp(name, "utf8")) return HAWK_CMGR_UTF8;
+	if (!strcmp(name, "utf16") || !strcmp(name, "utf16L")) return HAWK_CMGR_UTF16;
+	if (!strcmp(name, "mb8")) return HAWK_CMGR_MB8;
+	return -1;
+}
+/* defined in utl-cmgr.c; hawk-utl.h declares them under other names */
+int hawk_conv_utf8_to_ucstr (const hawk_bch_t*, hawk_oow_t*, hawk_uch_t*, hawk_oow_t*);
+int hawk_conv_utf16_to_ucstr (const hawk_bch_t*, hawk_oow_t*, hawk_uch_t*, hawk_oow_t*);
+int hawk_conv_mb8_to_ucstr (const hawk_bch_t*, hawk_oow_t*, hawk_uch_t*, hawk_oow_t*);
+typedef int (*btou_t) (const hawk_bch_t*, hawk_oow_t*, hawk_uch_t*, hawk_oow_t*);
+typedef int (*utob_t) (const hawk_uch_t*, hawk_oow_t*, hawk_bch_t*, hawk_oow_t*);
+static btou_t w_btou[3] = { hawk_conv_utf8_to_uchars, hawk_conv_utf16_to_uchars, hawk_conv_mb8_to_uchars };
+static utob_t w_utob[3] = { hawk_conv_uchars_to_utf8, hawk_conv_uchars_to_utf16, hawk_conv_uchars_to_mb8 };
+static btou_t w_btous[3] = { hawk_conv_utf8_to_ucstr, hawk_conv_utf16_to_ucstr, hawk_conv_mb8_to_ucstr };
+static utob_t w_utobs[3] = { hawk_conv_ucstr_to_utf8, hawk_conv_ucstr_to_utf16, hawk_conv_ucstr_to_mb8 };
+
+/* a runtime for the value-level operations (vstr / vmbs / v2u / v2b), made on first use */
+static hawk_t* v_hawk = HAWK_NULL; static hawk_rtx_t* v_rtx = HAWK_NULL;
+static hawk_rtx_t* the_rtx (void)
+{
+	if (!v_rtx)
+	{
+		hawk_parsestd_t psin[2]; static hawk_bch_t src[] = "BEGIN { }";
+		v_hawk = hawk_openstd(0, HAWK_NULL);
+		memset(&psin, 0, sizeof(psin));
+		psin[0].type = HAWK_PARSESTD_BCS; psin[0].u.bcs.ptr = src; psin[0].u.bcs.len = sizeof(src) - 1; psin[1].type = HAWK_PARSESTD_NULL;
+		if (!v_hawk || hawk_parsestd(v_hawk, psin, HAWK_NULL) <= -1) return HAWK_NULL;
+		v_rtx = hawk_rtx_openstd(v_hawk, 0, HAWK_T("v"), HAWK_NULL, HAWK_NULL, HAWK_NULL);
+	}
+	return v_rtx;
+}
+static const char* gem_errname (hawk_gem_t* g) { return g->errnum == HAWK_EECERR ? "EECERR" : g->errnum == HAWK_EBUFFULL ? "EBUFFULL" : g->errnum == HAWK_ENOMEM ? "ENOMEM" : "E?"; }
+
 #define CALLCAP 100000
 
 int main (int argc, char** argv)
@@ -247,7 +290,7 @@ int main (int argc, char** argv)
 			size_t capa = strtoul(w[1], NULL, 10), size = strtoul(w[3], NULL, 10); long calls = 0; const char* end = "cap";
 			hawk_tio_t* tio; hawk_bch_t* ib;
 			if (parse_chunks(w[4]) < 0 || capa < HAWK_TIO_MININBUFCAPA || size < 1) { printf("bad-op\n"); free_chunks(); continue; }
-			tio = hawk_tio_open(&gem, 0, tio_flags(w[2])); ib = malloc(capa);
+			tio = hawk_tio_open(&gem, 0, tio_flags(w[2])); tio_pick_cmgr(tio, w[2]); ib = malloc(capa);
 			hawk_tio_attachin(tio, in_handler, ib, capa);
 			while (calls++ < CALLCAP)
 			{
@@ -286,7 +329,7 @@ int main (int argc, char** argv)
 			size_t capa = strtoul(w[1], NULL, 10); int bytes = !strcmp(w[0], "tiowb"), first = 1; char* sp;
 			hawk_tio_t* tio; hawk_bch_t* ob; size_t i;
 			if (capa < HAWK_TIO_MINOUTBUFCAPA) { printf("bad-op\n"); continue; }
-			tio = hawk_tio_open(&gem, 0, tio_flags(w[2])); ob = malloc(capa);
+			tio = hawk_tio_open(&gem, 0, tio_flags(w[2])); tio_pick_cmgr(tio, w[2]); ob = malloc(capa);
 			hawk_tio_attachout(tio, out_handler, ob, capa);
 			sp = w[3];
 			if (strcmp(sp, ".")) for (;;)
@@ -312,7 +355,7 @@ int main (int argc, char** argv)
 			size_t capa = strtoul(w[1], NULL, 10); int first = 1; char* sp; size_t i;
 			hawk_tio_t* tio; hawk_bch_t* ob;
 			if (capa < HAWK_TIO_MINOUTBUFCAPA || parse_script(w[3]) < 0) { printf("bad-op\n"); continue; }
-			tio = hawk_tio_open(&gem, 0, tio_flags(w[2])); ob = malloc(capa);
+			tio = hawk_tio_open(&gem, 0, tio_flags(w[2])); tio_pick_cmgr(tio, w[2]); ob = malloc(capa);
 			hawk_tio_attachout(tio, scripted_out_handler, ob, capa);
 			sp = w[4];
 			if (strcmp(sp, ".")) for (;;)
@@ -321,6 +364,12 @@ int main (int argc, char** argv)
 				gem.errnum = HAWK_ENOERR;
 				if (sl == 1 && sp[0] == 'F') { r = hawk_tio_flush(tio); isflush = 1; }
 				else if (sl >= 2 && sp[0] == 'b' && sp[1] == ':') { unsigned char* b = parse_bytes(sp + 2, sl - 2, &n); if (!b) { printf("bad-op"); break; } r = hawk_tio_writebchars(tio, (hawk_bch_t*)b, n); free(b); }
+				else if (sl >= 2 && sp[0] == 's' && sp[1] == ':')
+				{	/* null-terminated source: hawk_tio_writebchars (tio, str, (hawk_oow_t)-1) */
+					unsigned char* b = parse_bytes(sp + 2, sl - 2, &n), * z; if (!b) { printf("bad-op"); break; }
+					z = malloc(n + 1); memcpy(z, b, n); z[n] = 0; n = strlen((char*)z);
+					r = hawk_tio_writebchars(tio, (hawk_bch_t*)z, (hawk_oow_t)-1); free(b); free(z);
+				}
 				else if (sl >= 2 && sp[0] == 'u' && sp[1] == ':') { hawk_uch_t* u = parse_chars(sp + 2, sl - 2, &n); if (!u) { printf("bad-op"); break; } r = hawk_tio_writeuchars(tio, u, n); free(u); }
 				else { printf("bad-op"); break; }
 				if (!first) putchar(' '); first = 0;
@@ -336,6 +385,107 @@ int main (int argc, char** argv)
 			printf("\n");
 			tio->outbuf_len = 0; /* nothing more to compare */
 			hawk_tio_close(tio); free(ob); free_sink();
+		}
+		else if (nw == 4 && !strcmp(w[0], "cenc"))
+		{
+			int id = cm_id(w[1]); unsigned long uc = strtoul(w[2], NULL, 16); size_t size = strtoul(w[3], NULL, 10), i; int touched = 0;
+			unsigned char* b; hawk_oow_t r;
+			if (id < 0) { printf("bad-op\n"); continue; }
+			b = malloc(size); memset(b, 0xAA, size);
+			r = hawk_get_cmgr_by_id(id)->uctobc((hawk_uch_t)uc, (hawk_bch_t*)b, size);
+			printf("ret=%lu bytes=", (unsigned long)r);
+			if (r != 0 && r <= size) put_bytes(b, r);
+			else { for (i = 0; i < size; i++) if (b[i] != 0xAA) touched = 1; printf(touched ? "TOUCHED" : "-"); }
+			printf("\n"); free(b);
+		}
+		else if (nw == 3 && !strcmp(w[0], "cdec"))
+		{
+			int id = cm_id(w[1]); size_t n; unsigned char* b = parse_bytes(w[2], strlen(w[2]), &n); hawk_uch_t uc = 0xFFFF, uc2 = 0x1234; hawk_oow_t r, r2;
+			if (id < 0 || !b || n == 0) { printf("bad-op\n"); free(b); continue; }
+			r = hawk_get_cmgr_by_id(id)->bctouc((const hawk_bch_t*)b, n, &uc);
+			r2 = hawk_get_cmgr_by_id(id)->bctouc((const hawk_bch_t*)b, n, &uc2);
+			printf("ret=%lu uc=", (unsigned long)r);
+			if (r != 0 && r <= n) printf("%lx", (unsigned long)uc);
+			else printf((uc == 0xFFFF && uc2 == 0x1234) ? "-" : "TOUCHED");
+			if (r2 != r || (r != 0 && r <= n && uc != uc2)) printf(" NONDET");
+			printf("\n"); free(b);
+		}
+		else if (nw == 2 && !strcmp(w[0], "cname"))
+		{
+			/* hawk_get_cmgr_by_bcstr and hawk_get_cmgr_by_ucstr must agree and name one of the built-in managers */
+			const char* nm = strcmp(w[1], "-") ? w[1] : ""; hawk_uch_t un[64]; size_t i, l = strlen(nm); hawk_cmgr_t* a, * b2; const char* id = "NULL";
+			for (i = 0; i < l && i < 63; i++) un[i] = (unsigned char)nm[i]; un[i] = 0;
+			a = hawk_get_cmgr_by_bcstr(nm); b2 = hawk_get_cmgr_by_ucstr(un);
+			if (a == hawk_get_cmgr_by_id(HAWK_CMGR_UTF8)) id = "utf8"; else if (a == hawk_get_cmgr_by_id(HAWK_CMGR_UTF16)) id = "utf16";
+			else if (a == hawk_get_cmgr_by_id(HAWK_CMGR_MB8)) id = "mb8"; else if (a) id = "OTHER";
+			printf("id=%s%s\n", id, a == b2 ? "" : " BCSTR/UCSTR-DISAGREE");
+		}
+		else if (nw == 4 && (!strcmp(w[0], "cbtou") || !strcmp(w[0], "cbtous")))
+		{
+			int id = cm_id(w[1]), cstr = !strcmp(w[0], "cbtous"); size_t n, wcap = strtoul(w[2], NULL, 10); unsigned char* b = parse_bytes(w[3], strlen(w[3]), &n);
+			hawk_uch_t* u; hawk_oow_t bl, ul; int x;
+			if (id < 0 || !b) { printf("bad-op\n"); free(b); continue; }
+			u = malloc(wcap * sizeof(hawk_uch_t)); memset(u, 0x55, wcap * sizeof(hawk_uch_t));
+			if (cstr) { b = realloc(b, n + 1); b[n] = 0; }
+			bl = n; ul = wcap;
+			x = (cstr ? w_btous[id] : w_btou[id])((const hawk_bch_t*)b, &bl, u, &ul);
+			printf("x=%d mlen=%lu out=", x, (unsigned long)bl); put_chars(u, ul <= wcap ? ul : wcap);
+			if (cstr) printf(" nul=%d", (ul < wcap && u[ul] == 0) ? 1 : 0);
+			printf("\n"); free(b); free(u);
+		}
+		else if (nw == 4 && (!strcmp(w[0], "cutob") || !strcmp(w[0], "cutobs")))
+		{
+			int id = cm_id(w[1]), cstr = !strcmp(w[0], "cutobs"); size_t n, rem = strtoul(w[2], NULL, 10); hawk_uch_t* u = parse_chars(w[3], strlen(w[3]), &n);
+			unsigned char* b; hawk_oow_t bl, ul; int x;
+			if (id < 0 || !u) { printf("bad-op\n"); free(u); continue; }
+			b = malloc(rem); memset(b, 0x55, rem);
+			if (cstr) { u = realloc(u, (n + 1) * sizeof(hawk_uch_t)); u[n] = 0; }
+			bl = rem; ul = n;
+			x = (cstr ? w_utobs[id] : w_utob[id])(u, &ul, (hawk_bch_t*)b, &bl);
+			printf("x=%d ulen=%lu bytes=", x, (unsigned long)ul); put_bytes(b, bl <= rem ? bl : rem);
+			if (cstr) printf(" nul=%d", (bl < rem && b[bl] == 0) ? 1 : 0);
+			printf("\n"); free(b); free(u);
+		}
+		else if ((nw == 4 && !strcmp(w[0], "dupb")) || (nw == 3 && !strcmp(w[0], "v2u")) || (nw == 2 && !strcmp(w[0], "vstr")))
+		{
+			/* bytes -> text: gem level (dupb <cm> <all> <bytes>), value level (v2u <cm> <bytes>: byte-string value read as text with
+			 * that manager; vstr <bytes>: hawk_rtx_makestrvalwithbchars) */
+			int id = nw == 2 ? HAWK_CMGR_UTF8 : cm_id(w[1]); const char* hx = w[nw - 1]; size_t n; unsigned char* b = parse_bytes(hx, strlen(hx), &n);
+			hawk_uch_t* u = HAWK_NULL; hawk_oow_t ul = 0; const char* err = "E?"; hawk_val_t* v = HAWK_NULL; hawk_rtx_t* rtx = HAWK_NULL;
+			if (id < 0 || !b) { printf("bad-op\n"); free(b); continue; }
+			if (nw == 4) { u = hawk_gem_dupbtoucharswithcmgr(&gem, (hawk_bch_t*)b, n, &ul, hawk_get_cmgr_by_id(id), w[2][0] == '1'); err = gem_errname(&gem); }
+			else
+			{
+				rtx = the_rtx(); if (!rtx) { printf("setup-failed\n"); free(b); continue; }
+				if (nw == 3) { v = hawk_rtx_makembsvalwithbchars(rtx, (hawk_bch_t*)b, n); hawk_rtx_refupval(rtx, v); u = hawk_rtx_valtoucstrdupwithcmgr(rtx, v, &ul, hawk_get_cmgr_by_id(id)); }
+				else { v = hawk_rtx_makestrvalwithbchars(rtx, (hawk_bch_t*)b, n); if (v) { hawk_rtx_refupval(rtx, v); u = ((hawk_val_str_t*)v)->val.ptr; ul = ((hawk_val_str_t*)v)->val.len; } }
+				err = gem_errname(hawk_rtx_getgem(rtx));
+			}
+			if (!u) printf("%s\n", err);
+			else { printf("ok len=%lu out=", (unsigned long)ul); put_chars(u, ul); printf("%s\n", u[ul] == 0 ? "" : " NOT-TERMINATED"); }
+			if (nw == 4) { if (u) hawk_gem_freemem(&gem, u); }
+			else { if (nw == 3 && u) hawk_rtx_freemem(rtx, u); if (v) hawk_rtx_refdownval(rtx, v); }
+			free(b);
+		}
+		else if ((nw == 3 && !strcmp(w[0], "dupu")) || (nw == 3 && !strcmp(w[0], "v2b")) || (nw == 2 && !strcmp(w[0], "vmbs")))
+		{
+			/* text -> bytes: gem level (dupu <cm> <chars>), value level (v2b <cm> <chars>, vmbs <chars>: hawk_rtx_makembsvalwithuchars) */
+			int id = nw == 2 ? HAWK_CMGR_UTF8 : cm_id(w[1]); const char* hx = w[nw - 1]; size_t n; hawk_uch_t* u = parse_chars(hx, strlen(hx), &n);
+			hawk_bch_t* b = HAWK_NULL; hawk_oow_t bl = 0; const char* err = "E?"; hawk_val_t* v = HAWK_NULL; hawk_rtx_t* rtx = HAWK_NULL; int gemlevel = !strcmp(w[0], "dupu");
+			if (id < 0 || !u) { printf("bad-op\n"); free(u); continue; }
+			if (gemlevel) { b = hawk_gem_duputobcharswithcmgr(&gem, u, n, &bl, hawk_get_cmgr_by_id(id)); err = gem_errname(&gem); }
+			else
+			{
+				rtx = the_rtx(); if (!rtx) { printf("setup-failed\n"); free(u); continue; }
+				if (nw == 3) { v = hawk_rtx_makestrvalwithuchars(rtx, u, n); hawk_rtx_refupval(rtx, v); b = hawk_rtx_valtobcstrdupwithcmgr(rtx, v, &bl, hawk_get_cmgr_by_id(id)); }
+				else { v = hawk_rtx_makembsvalwithuchars(rtx, u, n); if (v) { hawk_rtx_refupval(rtx, v); b = ((hawk_val_mbs_t*)v)->val.ptr; bl = ((hawk_val_mbs_t*)v)->val.len; } }
+				err = gem_errname(hawk_rtx_getgem(rtx));
+			}
+			if (!b) printf("%s\n", err);
+			else { printf("ok len=%lu out=", (unsigned long)bl); put_bytes((unsigned char*)b, bl); printf("%s\n", b[bl] == 0 ? "" : " NOT-TERMINATED"); }
+			if (gemlevel) { if (b) hawk_gem_freemem(&gem, b); }
+			else { if (nw == 3 && b) hawk_rtx_freemem(rtx, b); if (v) hawk_rtx_refdownval(rtx, v); }
+			free(u);
 		}
 		else if (nw == 3 && !strcmp(w[0], "prt"))
 		{
